@@ -91,7 +91,7 @@ def execute(row, peer_bytes) -> dict:
     obs = {'families': [], 'asn4': False, 'localAs': [0, 0], 'peerAs': [0, 0], 'apSend': [], 'apRecv': [], 'msgSize': 0, 'refresh': 'absent', 'hold': 0}
     crash = ''
     try:
-        received = Message.unpack(1, bytes(peer_bytes[19:]), neg)
+        received = Message.unpack(1, memoryview(bytes(peer_bytes))[19:], neg)
         neg.received(received)
         err = neg.validate(neighbor)
         if err is not None:
